@@ -18,6 +18,7 @@ import (
 
 	"verifharness/internal/coqfmt"
 	"verifharness/internal/driver"
+	"verifharness/internal/textgen"
 )
 
 type repCfg struct {
@@ -120,6 +121,10 @@ func runRepFlag(in input, fail func(entry, what, s string)) driver.Result {
 }
 
 func repFlagCorpus(add func(in input)) {
+	for _, e := range textgen.BoundaryEscapes {
+		q := `"a` + e + `"`
+		add(input{K: "rflag", Cfg: 0, L: []string{`-labels=` + q + `:"v"`, `-labels="k":` + q, `-multi=` + q + `:` + q, `-tags=` + q, `-set="x",` + q}})
+	}
 	for _, name := range repFlags[:7] {
 		vs := repValues[name]
 		vals := []string{"", vs[0], vs[1]}
@@ -148,6 +153,15 @@ func genRepFlag(r *coqfmt.Rng) input {
 		v := ""
 		if !r.Chance(1, 3) {
 			v = coqfmt.Pick(r, repValues[name])
+		}
+		if r.Chance(1, 5) { // a quoted member with an escape at or beyond the validity boundaries
+			q := `"a` + coqfmt.Pick(r, textgen.BoundaryEscapes) + `"`
+			switch name {
+			case "labels", "multi":
+				v = coqfmt.Pick(r, []string{q + `:"v"`, `"k":` + q, q + ":" + q})
+			case "tags", "set":
+				v = coqfmt.Pick(r, []string{q, `"x",` + q})
+			}
 		}
 		args[i] = "-" + name + "=" + v
 	}
